@@ -5,9 +5,10 @@
     chain/recover.go): the marker's RecoverChainMapping puts the number->hash mapping back to the
     OLD chain ("required for LIB loading"), the consensus status is loaded from the DB
     (NewStatus/bootLoader), and ChainService.Recover redoes the reorganisation from the marker:
-    NeedReorganization(root), Update(root), executeBlockReco (IsBlockValid, Update) for each new
-    block, swapChainMapping + Save, delete marker.  A failing Recover is fatal
-    ("CHAIN DATA IS CRASHED, BUT CAN'T BE RECOVERED").
+    Update(root), executeBlockReco (IsBlockValid, Update) for each new block, swapChainMapping +
+    Save, delete marker; since fix 479daa05 (F40) the redo is not submitted to NeedReorganization
+    again (before, the LIB saved with the swapped chain could veto it and a failing Recover is
+    fatal: "CHAIN DATA IS CRASHED, BUT CAN'T BE RECOVERED").
     Crash at 2: old mapping, old saved status.  Crash at 3: old mapping (after RecoverChainMapping)
     but the NEW saved status. *)
 From Coq Require Import ZArith List Bool Lia.
@@ -24,8 +25,6 @@ Definition redo_reorg (nd : node) (tip : block) : node * coutcome :=
   match gather (length (nd_store nd)) (nd_main nd) (nd_store nd) tip [] with
   | None => (nd, CO OInvalid)
   | Some (root, new_blocks) =>
-      if negb (need_reorganization (st_ls (nd_st nd)) (k_no root)) then (nd, CRecoverVeto)
-      else
         let main_r := firstn (Z.to_nat (k_no root) + 1) (nd_main nd) in
         let st1 := status_update (main_get main_r) [] (nd_size nd) (nd_st nd) root in
         let st' := fold_left (status_update (main_get main_r) [] (nd_size nd)) new_blocks st1 in
